@@ -314,7 +314,9 @@ def replay(path):
 def setup():
     ensure_tools()
     # pre-warm the build cache: compile every harness once (no run)
+    enabled = set(open(os.path.join(VERIF, "harness", "ENABLED")).read().split())
     ids = sorted(os.path.basename(os.path.dirname(p)) for p in glob.glob(os.path.join(VERIF, "harness", "*", "check.json")))
+    ids = [i for i in ids if i in enabled]
     ok = True
     for pid in ids:
         chk = load_check(pid)
